@@ -30,6 +30,9 @@ structure St where
   mmr : MMR PT := ⟨0, Store.empty⟩
   roots : List (Nat × Term) := []
   proofs : List (Nat × Nat × List Term) := []
+  /-- the leaf ids of the current chain (only used to cross-check `getRoot` against the carry-style
+  specification `specRoot` at run time; a mismatch is printed and shows up as a diff) -/
+  chain : List Nat := []
 
 def renderList (l : List Term) : String :=
   if l.isEmpty then "-" else ";".intercalate (l.map Term.render)
@@ -52,9 +55,13 @@ def parsePairs? (s : String) : Option (List (Nat × Nat)) :=
 
 def sizeOfLeaves (n : Nat) : Nat := if n = 0 then 0 else leafIndexToMmrSize (n - 1)
 
-def rootLine (s : St) (m : MMR PT) (slot : Nat) : St × String :=
+def rootLine (s : St) (m : MMR PT) (slot : Nat) (leaves : Option (List Nat)) : St × String :=
   match getRoot pmerge m with
-  | some (some r) => ({ s with roots := (slot, r) :: s.roots }, s!"root {r.render}")
+  | some (some r) =>
+    let ok := match leaves with
+      | none => true
+      | some ls => specRoot pmerge (ls.map fun i => some (Term.leaf i)) == some (some r)
+    ({ s with roots := (slot, r) :: s.roots }, s!"root {r.render}" ++ (if ok then "" else " SPEC-MISMATCH"))
   | _ => (s, "err")
 
 def proofLine (s : St) (m : MMR PT) (slot : Nat) (pos : List Nat) : St × String :=
@@ -79,29 +86,29 @@ def stepMmr (s : St) (ts : List String) : St × String :=
     match parseNat? id with
     | some id =>
       match pushChecked s.mmr [id] with
-      | some (m, pos) => ({ s with mmr := m }, s!"ok {pos} {m.size}")
+      | some (m, pos) => ({ s with mmr := m, chain := s.chain ++ [id] }, s!"ok {pos} {m.size}")
       | none => (s, "err")
     | none => (s, "bad-op")
   | ["pushn", ids] =>
     match parseNatList? ids with
     | some ids =>
       match pushChecked s.mmr ids with
-      | some (m, _) => ({ s with mmr := m }, s!"ok {m.size}")
+      | some (m, _) => ({ s with mmr := m, chain := s.chain ++ ids }, s!"ok {m.size}")
       | none => (s, "err")
     | none => (s, "bad-op")
   | ["reorg", n] =>
     match parseNat? n with
     | some n =>
       let m : MMR PT := { size := sizeOfLeaves n, store := s.mmr.store }
-      ({ s with mmr := m }, s!"ok {m.size}")
+      ({ s with mmr := m, chain := s.chain.take n }, s!"ok {m.size}")
     | none => (s, "bad-op")
   | ["root", slot] =>
     match parseNat? slot with
-    | some slot => rootLine s s.mmr slot
+    | some slot => rootLine s s.mmr slot (some s.chain)
     | none => (s, "bad-op")
   | ["rootat", n, slot] =>
     match parseNat? n, parseNat? slot with
-    | some n, some slot => rootLine s (recreate s.mmr n) slot
+    | some n, some slot => rootLine s (recreate s.mmr n) slot (if n < s.chain.length then some (s.chain.take (n + 1)) else none)
     | _, _ => (s, "bad-op")
   | ["proof", slot, n, idxs] =>
     match parseNat? slot, parseNat? n, parseNatList? idxs with
